@@ -12,6 +12,7 @@ import z3
 Z3_TIMEOUT_MS = int(os.environ.get("PYVC_Z3_TIMEOUT_MS", "10000"))
 FEAS_TIMEOUT_MS = int(os.environ.get("PYVC_FEAS_TIMEOUT_MS", "400"))
 CVC5_TIMEOUT_S = int(os.environ.get("PYVC_CVC5_TIMEOUT_S", "20"))
+RETRY_FACTOR = int(os.environ.get("PYVC_RETRY_FACTOR", "8"))
 
 
 class OutsideSubset(Exception):
@@ -154,6 +155,15 @@ def check_valid(hyps, goal, timeout_ms=None):
         r2 = "unknown"
     if r2 == "unsat":
         return "discharged", "cvc5", time.time() - t0, None
+    # a verdict must not flip because the machine is busy: when z3 ran out of (wall-clock) time rather than gave
+    # up, ask once more with a budget several times larger (only ever reached by queries that would otherwise be undecided)
+    if timeout_ms is None and any(w in s.reason_unknown() for w in ("timeout", "canceled")):
+        s.set("timeout", RETRY_FACTOR * Z3_TIMEOUT_MS)
+        r = s.check()
+        if r == z3.unsat:
+            return "discharged", "z3 (second attempt, longer budget)", time.time() - t0, None
+        if r == z3.sat:
+            return "refuted", "z3 (second attempt, longer budget)", time.time() - t0, s.model()
     return "unknown", "z3+cvc5", time.time() - t0, None
 
 
